@@ -8,8 +8,9 @@ package main
 //                  flush.end          let the parked flush finish
 //                  rot.tree           start the rotation; it parks right after the agile-tree meta file has been created
 //                                     (EncodeStarTree), or - no tree is being built - like rot.meta
-//                  rot.meta           start the rotation (or let the one parked at rot.tree go on); it parks after
-//                                     AddSegMetaToMetadata (rotated metadata visible)
+//                  rot.segmeta        start the rotation (or let the one parked at rot.tree go on); it parks after the
+//                                     segmeta.json line was written, right before AddSegMetaToMetadata
+//                  rot.meta           let it go on; it parks after AddSegMetaToMetadata (rotated metadata visible)
 //                  rot.remove         let it go on; it parks after removeSegKeyFromUnrotatedInfo
 //                  rot.end            let the rotation finish
 //   query steps    q.snapU            start the query; it parks after the unrotated snapshot
@@ -70,7 +71,7 @@ func cmdVisSched(c Cmd) (interface{}, error) {
 	pU := []string{"snap.unrotated|" + qs, "snapagg.unrotated|" + qs}
 	pR := []string{"snap.rotated|" + qs, "snapagg.rotated|" + qs}
 	gateInstall("qid", append(append([]string{}, pU...), append(pR, "search.unrotated|"+qs, "search.planned|"+qs, "read.unrotated.checked|"+qs,
-		"fetch.unrotated.checked|"+qs, "flush.unrotated.visible|*", "rot.tree.created|*", "rot.metadata.visible|*", "rot.unrotated.removed|*")...))
+		"fetch.unrotated.checked|"+qs, "flush.unrotated.visible|*", "rot.tree.created|*", "rot.metadata.begin|*", "rot.metadata.visible|*", "rot.unrotated.removed|*")...))
 	curSeg, want := "", "" // segment the writer is filling / the one the query listed last
 	// gate keys for writer points carry no qid: hookFn builds "point|<nil>" -> falls back to "point|*"
 	const W = 4 * time.Second
@@ -162,14 +163,19 @@ func cmdVisSched(c Cmd) (interface{}, error) {
 			wTicket.letGo()
 			wTicket = nil
 			ok = waitW()
-		case st == "rot.tree" || st == "rot.meta":
-			if st == "rot.meta" && atMeta {
+		case st == "rot.meta":
+			// the rotation is parked at rot.metadata.begin (rot.segmeta)
+			wTicket.letGo()
+			wTicket = gateArrive("rot.metadata.visible|*", W)
+			ok = wTicket != nil
+		case st == "rot.tree" || st == "rot.segmeta":
+			if st == "rot.segmeta" && atMeta {
 				atMeta = false // the rotation started by rot.tree built no tree and is already parked here
 				break
 			}
-			if st == "rot.meta" && rotStarted {
+			if st == "rot.segmeta" && rotStarted {
 				wTicket.letGo()
-				wTicket = gateArrive("rot.metadata.visible|*", W)
+				wTicket = gateArrive("rot.metadata.begin|*", W)
 				ok = wTicket != nil
 				rotStarted = false
 				break
@@ -191,9 +197,9 @@ func cmdVisSched(c Cmd) (interface{}, error) {
 				t.letGo()
 			}
 			if st == "rot.tree" {
-				wTicket = gateArriveAny([]string{"rot.tree.created|*", "rot.metadata.visible|*"}, W)
+				wTicket = gateArriveAny([]string{"rot.tree.created|*", "rot.metadata.begin|*"}, W)
 				ok = wTicket != nil
-				if ok && wTicket.point == "rot.metadata.visible" {
+				if ok && wTicket.point == "rot.metadata.begin" {
 					atMeta = true
 				} else {
 					rotStarted = true
@@ -202,7 +208,7 @@ func cmdVisSched(c Cmd) (interface{}, error) {
 				break
 			}
 			gateClose("rot.tree.created|*")
-			wTicket = gateArrive("rot.metadata.visible|*", W)
+			wTicket = gateArrive("rot.metadata.begin|*", W)
 			ok = wTicket != nil
 		case st == "rot.remove":
 			wTicket.letGo()
